@@ -2,6 +2,7 @@ package main
 
 import (
 	"bytes"
+	"math"
 	"context"
 	"encoding/hex"
 	"errors"
@@ -10,6 +11,8 @@ import (
 	"strings"
 
 	"github.com/cometbft/cometbft/abci/types"
+	cmted25519 "github.com/cometbft/cometbft/crypto/ed25519"
+	cmttypes "github.com/cometbft/cometbft/types"
 
 	beacon "github.com/oasisprotocol/oasis-core/go/beacon/api"
 	"github.com/oasisprotocol/oasis-core/go/common/crypto/signature"
@@ -19,6 +22,7 @@ import (
 	governanceState "github.com/oasisprotocol/oasis-core/go/consensus/cometbft/apps/governance/state"
 	registryState "github.com/oasisprotocol/oasis-core/go/consensus/cometbft/apps/registry/state"
 	schedulerState "github.com/oasisprotocol/oasis-core/go/consensus/cometbft/apps/scheduler/state"
+	schedulerAPI "github.com/oasisprotocol/oasis-core/go/scheduler/api"
 	stakingState "github.com/oasisprotocol/oasis-core/go/consensus/cometbft/apps/staking/state"
 	genesis "github.com/oasisprotocol/oasis-core/go/genesis/api"
 	governance "github.com/oasisprotocol/oasis-core/go/governance/api"
@@ -78,6 +82,11 @@ type knobs struct {
 	Huge           bool
 	Twin           bool
 	MinValidators  int
+	Tiny           bool  // stake thresholds below one voting-power unit; validators with 1..20 base units
+	TinyRemainder  int64 // what a consensus slash leaves of the last validator's escrow (Tiny)
+	NearCap        bool  // one validator holds a stake whose power is just below CometBFT's total power cap
+	CapMargin      int64 // distance of the total supply's power from the cap (NearCap)
+	SqrtHuge       bool  // genesis uses the sqrt voting-power distribution and one validator holds 2^100
 }
 
 func pickBig(r *prng.R, xs ...*big.Int) *big.Int { return xs[r.Intn(len(xs))] }
@@ -119,6 +128,18 @@ func makeKnobs(d histDesc, r *prng.R) *knobs {
 	thr := [][2]uint64{{1, 2}, {0, 0}, {1, 1}, {0, 1}, {3, 4}}
 	t := thr[r.Intn(len(thr))]
 	k.ThrNum, k.ThrDen = t[0], t[1]
+	if !k.Bypass && r.Chance(25) {
+		k.Tiny, k.TinyRemainder = true, int64(1+r.Intn(20))
+		if r.Chance(50) {
+			k.Freeze = 0 // the slashed validator stays electable with its tiny remainder
+		}
+	}
+	if !k.Bypass && r.Chance(15) {
+		k.NearCap, k.CapMargin = true, int64(1000+r.Intn(5000))
+	}
+	if capMarginFlag >= 0 {
+		k.Bypass, k.Huge, k.Tiny, k.TinyRemainder, k.NearCap, k.CapMargin = false, false, true, 7, true, capMarginFlag
+	}
 	if d.Stream == "precond" {
 		k.Validators = 2 + r.Intn(3)
 		k.SlashAmt = max
@@ -156,6 +177,8 @@ type world struct {
 	rt *rtScen // stream roothash
 
 	pending *violation // an invariant violation seen earlier in the history
+
+	cmtVals *cmttypes.ValidatorSet // CometBFT's view of the validator set (NextValidators)
 }
 
 type histResult struct {
@@ -229,6 +252,59 @@ func (w *world) mutate(doc *genesis.Document) {
 			}
 		}
 	}
+	if k.Tiny {
+		// thresholds below one voting-power unit (16 base units): an entity with 5..20 base units
+		// of escrow can run a validator
+		for kind := range st.Parameters.Thresholds {
+			st.Parameters.Thresholds[kind] = qU(1)
+		}
+		st.Parameters.Thresholds[staking.KindEntity] = qU(2)
+		st.Parameters.Thresholds[staking.KindNodeValidator] = qU(3)
+		st.Parameters.MinDelegationAmount = qU(1)
+		if n := len(w.g0vals); n > 2 {
+			esc := st.Ledger[w.g0vals[n-1]].Escrow.Active.Balance.ToBigInt()
+			amt := new(big.Int).Sub(esc, big.NewInt(k.TinyRemainder))
+			for r, sl := range st.Parameters.Slashing {
+				sl.Amount = qBig(amt)
+				st.Parameters.Slashing[r] = sl
+			}
+		}
+	}
+	if k.NearCap && len(w.g0vals) > 0 {
+		// the last validator's self-escrow is raised so that the power of the WHOLE supply is
+		// CapMargin below MaxTotalVotingPower = MaxInt64/8 (the genesis check allows up to the cap)
+		rest := new(big.Int)
+		for _, a := range st.Ledger {
+			rest.Add(rest, a.General.Balance.ToBigInt())
+			rest.Add(rest, a.Escrow.Active.Balance.ToBigInt())
+			rest.Add(rest, a.Escrow.Debonding.Balance.ToBigInt())
+		}
+		rest.Add(rest, st.CommonPool.ToBigInt())
+		rest.Add(rest, st.LastBlockFees.ToBigInt())
+		rest.Add(rest, st.GovernanceDeposits.ToBigInt())
+		capPow := new(big.Int).SetInt64(math.MaxInt64 / 8)
+		want := new(big.Int).Mul(new(big.Int).Sub(capPow, big.NewInt(k.CapMargin)), big.NewInt(16))
+		x := new(big.Int).Sub(want, rest)
+		if x.Sign() > 0 {
+			va := w.g0vals[len(w.g0vals)-1]
+			acc := st.Ledger[va]
+			b := new(big.Int).Add(acc.Escrow.Active.Balance.ToBigInt(), x)
+			ts := new(big.Int).Add(acc.Escrow.Active.TotalShares.ToBigInt(), x)
+			acc.Escrow.Active.Balance, acc.Escrow.Active.TotalShares = qBig(b), qBig(ts)
+			d := st.Delegations[va][va]
+			d.Shares = qBig(new(big.Int).Add(d.Shares.ToBigInt(), x))
+		}
+	}
+	if k.SqrtHuge && len(w.g0vals) > 0 {
+		doc.Scheduler.Parameters.VotingPowerDistribution = schedulerAPI.VotingPowerDistributionSqrt
+		va := w.g0vals[len(w.g0vals)-1]
+		acc := st.Ledger[va]
+		x := bigPow2(100)
+		acc.Escrow.Active.Balance = qBig(new(big.Int).Add(acc.Escrow.Active.Balance.ToBigInt(), x))
+		acc.Escrow.Active.TotalShares = qBig(new(big.Int).Add(acc.Escrow.Active.TotalShares.ToBigInt(), x))
+		d := st.Delegations[va][va]
+		d.Shares = qBig(new(big.Int).Add(d.Shares.ToBigInt(), x))
+	}
 	// recompute the total supply
 	total := new(big.Int)
 	for _, a := range st.Ledger {
@@ -284,6 +360,7 @@ func newWorld(d histDesc, run *runner) (*world, error) {
 		}
 	}
 	w.c = muxdrv.NewChain(g)
+	w.initCmtVals()
 	if d.Stream == "roothash" {
 		w.rtInit()
 	}
@@ -331,6 +408,56 @@ func newWorld(d histDesc, run *runner) (*world, error) {
 		w.keys = append(w.keys, v.Entity)
 	}
 	return w, nil
+}
+
+// initCmtVals builds the genesis validator set as CometBFT does.
+func (w *world) initCmtVals() {
+	var vs []*cmttypes.Validator
+	for _, gv := range w.g.Cmt.Validators {
+		vs = append(vs, cmttypes.NewValidator(gv.PubKey, gv.Power))
+	}
+	w.cmtVals = cmttypes.NewValidatorSet(vs)
+}
+
+// applyValidatorUpdates does what CometBFT's block executor does with ResponseEndBlock.ValidatorUpdates.
+func (w *world) applyValidatorUpdates(res *muxdrv.BlockResult) (err error) {
+	defer func() {
+		if x := recover(); x != nil {
+			err = fmt.Errorf("panic while applying validator updates: %v", x)
+		}
+	}()
+	if len(res.ValidatorUpdates) == 0 {
+		return nil
+	}
+	var changes []*cmttypes.Validator
+	for _, u := range res.ValidatorUpdates {
+		// validateValidatorUpdates: negative power, unsupported key type
+		if u.Power < 0 {
+			return fmt.Errorf("voting power can't be negative: %d for %x", u.Power, u.PubKey)
+		}
+		if len(u.PubKey) != cmted25519.PubKeySize {
+			return fmt.Errorf("validator update with an unsupported public key (%d bytes)", len(u.PubKey))
+		}
+		changes = append(changes, cmttypes.NewValidator(cmted25519.PubKey(append([]byte{}, u.PubKey...)), u.Power))
+		switch {
+		case u.Power == 0:
+			w.count("cmt-updates/removal")
+		case u.Power == 1:
+			w.count("cmt-updates/power 1 (stake below one power unit or bypass)")
+		case u.Power > math.MaxInt64/16:
+			w.count("cmt-updates/power above half the cap")
+		default:
+			w.count("cmt-updates/other power")
+		}
+	}
+	nv := w.cmtVals.Copy()
+	if err := nv.UpdateWithChangeSet(changes); err != nil {
+		return fmt.Errorf("ValidatorSet.UpdateWithChangeSet: %w", err)
+	}
+	nv.IncrementProposerPriority(1)
+	w.cmtVals = nv
+	w.count("cmt-updates/blocks with updates accepted")
+	return nil
 }
 
 // ---- state snapshots (typed queries on the primary replica) ----
@@ -405,11 +532,22 @@ func (w *world) snapshot(r *muxdrv.Replica) (s *snap, err error) {
 		return nil, err
 	}
 	rs := registryState.NewImmutableState(ist)
+	var consAddrs [][]byte
 	for _, v := range w.g.Validators {
-		n, err := rs.NodeByConsensusAddress(ctx, v.ConsAddr)
+		consAddrs = append(consAddrs, v.ConsAddr)
+	}
+	// validators elected later (e.g. the small-stake joiners) vote and propose as well
+	// (the commit info of the next block lists the set of the block before: look back too)
+	for _, hh := range []int64{w.c.Next - 2, w.c.Next - 1, w.c.Next, w.c.Next + 1} {
+		for _, v := range w.c.ValidatorsAt(hh) {
+			consAddrs = append(consAddrs, v.Address)
+		}
+	}
+	for _, a := range consAddrs {
+		n, err := rs.NodeByConsensusAddress(ctx, a)
 		if err == nil {
 			e := n.EntityID
-			s.resolves[hex.EncodeToString(v.ConsAddr)] = &e
+			s.resolves[hex.EncodeToString(a)] = &e
 		}
 	}
 	ep, _, err := r.Epoch(0)
@@ -726,6 +864,12 @@ func (w *world) step(bp *blockPlan) bool {
 			cnt("tx", tr.Events)
 		}
 	}
+	// play CometBFT's acceptance of the block RESPONSE (state/execution.go: validateValidatorUpdates
+	// + NextValidators.UpdateWithChangeSet): an error there fails ApplyBlock on every node
+	if err := w.applyValidatorUpdates(res); err != nil {
+		w.fail(h, "CometBFT rejects the validator updates returned by EndBlock (ApplyBlock fails on every node)", err)
+		return false
+	}
 	c.Applied(res)
 	w.res.blocksRun++
 	cur, err := w.snapshot(prop)
@@ -814,6 +958,7 @@ func (w *world) describeKnobs() {
 	w.count("knob-slash/" + sizeClass(k.SlashAmt) + fmt.Sprintf(" freeze=%d", k.Freeze))
 	w.count(fmt.Sprintf("knob-weights/%s:%s:%s", sizeClass(k.Weights[0]), sizeClass(k.Weights[1]), sizeClass(k.Weights[2])))
 	w.count(fmt.Sprintf("knob-threshold/%d over %d", k.ThrNum, k.ThrDen))
+	w.count(fmt.Sprintf("knob-stake/tiny=%v nearcap=%v", k.Tiny, k.NearCap))
 	w.count(fmt.Sprintf("knob-periods/debond=%d voting=%d interval=%d", k.Debonding, k.VotingPeriod, k.EpochInterval))
 }
 
